@@ -448,7 +448,9 @@ func (n *UnaryNode) Format(buf *bytes.Buffer, indent string, onNewLine bool) {
 	}
 	writeIndent(buf, indent, onNewLine)
 	buf.WriteString(n.Operator.String())
-	n.Node.Format(buf, indent, false)
+	// A unary operator binds tighter than any binary operator.
+	b, isBinary := n.Node.(*BinaryNode)
+	formatOperand(buf, indent, false, n.Node, isBinary && !b.Parens)
 }
 func (n *UnaryNode) SetComment(c *CommentNode) {
 	n.Comment = c
@@ -539,7 +541,7 @@ func (n *BinaryNode) Format(buf *bytes.Buffer, indent string, onNewLine bool) {
 		buf.WriteByte('(')
 		indent += indentStep
 	}
-	n.Left.Format(buf, indent, false)
+	formatOperand(buf, indent, false, n.Left, n.operandNeedsParens(n.Left, false))
 	buf.WriteByte(' ')
 	buf.WriteString(n.Operator.String())
 	if n.MultiLine {
@@ -547,10 +549,44 @@ func (n *BinaryNode) Format(buf *bytes.Buffer, indent string, onNewLine bool) {
 	} else {
 		buf.WriteByte(' ')
 	}
-	n.Right.Format(buf, indent, n.MultiLine)
+	formatOperand(buf, indent, n.MultiLine, n.Right, n.operandNeedsParens(n.Right, true))
 	if n.Parens {
 		buf.WriteByte(')')
 	}
+}
+
+// operandNeedsParens reports whether an operand that is not marked with Parens
+// (a tree that was not created by the parser) must be parenthesized in order to keep
+// the structure of the tree: the operators are left-associative.
+func (n *BinaryNode) operandNeedsParens(operand Node, right bool) bool {
+	b, ok := operand.(*BinaryNode)
+	if !ok || b.Parens {
+		return false
+	}
+	if !IsExprOperator(n.Operator) || !IsExprOperator(b.Operator) {
+		return false
+	}
+	np, bp := precedence[n.Operator], precedence[b.Operator]
+	if bp < np || (bp == np && right) {
+		return true
+	}
+	// After a regex literal the lexer does not recognize a comparison operator:
+	// "a" =~ /x/ == TRUE has to be written as ("a" =~ /x/) == TRUE.
+	if _, isRegex := b.Right.(*RegexNode); isRegex && bp == np && !right {
+		return true
+	}
+	return false
+}
+
+func formatOperand(buf *bytes.Buffer, indent string, onNewLine bool, operand Node, parens bool) {
+	if !parens {
+		operand.Format(buf, indent, onNewLine)
+		return
+	}
+	writeIndent(buf, indent, onNewLine)
+	buf.WriteByte('(')
+	operand.Format(buf, indent+indentStep, false)
+	buf.WriteByte(')')
 }
 func (n *BinaryNode) SetComment(c *CommentNode) {
 	n.Comment = c
